@@ -168,8 +168,8 @@ def plan(tier, seed):
     T = "timeouts"
     if tier == "quick":
         return [dict(scenario=T, params=dict(n=1, form="executor"), bounds=dict(P=1)),
-                dict(scenario=T, params=dict(n=1, form="f_timeout"), bounds=dict(P=1)),
-                dict(scenario=T, params=dict(n=2, form="executor", submitters=2, regimes=[0, 1, 3], percall_choice=False), bounds=dict(P=0))]
+                dict(scenario=T, params=dict(n=1, form="f_timeout"), bounds=dict(P=0)),
+                dict(scenario=T, params=dict(n=2, form="executor", submitters=2, regimes=[0, 1], percall_choice=False), bounds=dict(P=0))]
     return [dict(scenario=T, params=dict(n=1, form="executor"), bounds=dict(P=2)),
             dict(scenario=T, params=dict(n=1, form="f_timeout"), bounds=dict(P=2)),
             dict(scenario=T, params=dict(n=1, form="executor", regimes=[0, 1, 2]), bounds=dict(P=1, adversarial=True)),
